@@ -117,7 +117,7 @@ Cfgs ==
 Init ==
   /\ sid \in Sids
   /\ pcfg \in {[c EXCEPT !.nocase = NoCase(sid)] : c \in Cfgs}
-  /\ root0 = [title |-> Null, opts |-> InitOpts(Schema(sid))]
+  /\ root0 = MkSec(Null, InitOpts(Schema(sid)))
   /\ done = <<>>
   /\ hist = <<>>
   /\ ps = PInit(root0, pcfg, "buf", FALSE, 0, 0, 0)
